@@ -1,2 +1,3 @@
+pub mod bus;
 pub mod mbc;
 pub mod sm83;
